@@ -133,8 +133,14 @@ func Main(t *testing.T, c *Check) {
 			Deadline: time.Now().Add(slice),
 			Subprocess: func() *exec.Cmd {
 				cmd := exec.Command(os.Args[0], "-test.run", "^"+c.TestName+"$", "-test.timeout", "0")
-				cmd.Env = append(os.Environ(), "VERIF_WORKER=1", "GOMAXPROCS=1")
-				cmd.Stderr = os.Stderr
+				gmp := "GOMAXPROCS=1"
+				if netctl.Burst {
+					gmp = "GOMAXPROCS=4" // burst mode wants real overlap; the race detector judges
+				}
+				cmd.Env = append(os.Environ(), "VERIF_WORKER=1", gmp, "GORACE=halt_on_error=1 exitcode=66")
+				if os.Getenv("VERIF_DEBUG") != "" {
+					cmd.Stderr = os.Stderr
+				}
 				return cmd
 			},
 			JobTimeout: 3 * time.Minute,
